@@ -164,24 +164,29 @@ def St.append (s : St) (run : Nat) (e : Ev) : St × Bool :=
   if s.failApp > 0 then ({ s with failApp := s.failApp - 1 }, false)
   else ({ s with events := s.events ++ [(run, e.kind)] }, true)
 
+/-- sequencing of store operations: an exception (`false`) skips the rest -/
+def andThen (r : St × Bool) (f : St → St × Bool) : St × Bool := if r.2 then f r.1 else r
+
+def St.publish (s : St) (run : Nat) (e : Ev) (release : Bool) : St × Bool :=
+  ({ s with published := s.published ++ [(run, e.kind)], releases := if release then s.releases + 1 else s.releases }, true)
+
 /-- the adapters below the server adapter: idle adapter (if any), then the live stream -/
 def St.forward (s : St) (run : Nat) (e : Ev) : St × Bool :=
   if s.idleLayer && e.kind.mro.contains GenHandlerStatus.idleClass then
-    let r := s.uhs run { status := Status.ofName? GenHandlerStatus.idleStatus, idle := some (some (s.clock + 1)) }
-    if r.2 then ({ r.1 with published := r.1.published ++ [(run, e.kind)], releases := r.1.releases + 1 }, true)
-    else r
-  else ({ s with published := s.published ++ [(run, e.kind)] }, true)
+    andThen (s.uhs run { status := Status.ofName? GenHandlerStatus.idleStatus, idle := some (some (s.clock + 1)) })
+      (fun x => x.publish run e true)
+  else s.publish run e false
+
+/-- the status update of the `isinstance` chain, through `_handle_status_update` -/
+def St.statusWrite (s : St) (run : Nat) (e : Ev) : St × Bool :=
+  match statusArgs e with
+  | some (st, err, res) => retry (fun x => x.uhs run { status := some st, result := res, error := err }) s.backoff s
+  | none => (s, true)
 
 /-- `_ServerInternalRunAdapter.write_to_event_stream` -/
 def St.writeEvent (s : St) (run : Nat) (e : Ev) (replaying : Bool) : St × Bool :=
-  let r1 : St × Bool :=
-    if replaying then (s, true) else
-      let r0 : St × Bool :=
-        match statusArgs e with
-        | some (st, err, res) => retry (fun x => x.uhs run { status := some st, result := res, error := err }) s.backoff s
-        | none => (s, true)
-      if r0.2 then r0.1.append run e else r0
-  if r1.2 then r1.1.forward run e else r1
+  andThen (if replaying then (s, true) else andThen (s.statusWrite run e) (fun x => x.append run e))
+    (fun x => x.forward run e)
 
 def St.idleClear (s : St) (run : Nat) : St × Bool := s.uhs run { idle := some none }
 
